@@ -83,54 +83,65 @@ def _clean(node):
     return node
 
 
-def children_strategy(depth, width, kinds=None, allow=("schema", "configtype", "schemalist", "virtual", "method", "featureflag")):
-    """A list of child nodes with unique keys."""
-    leaf = leaf_node(kinds)
-    options = [leaf, leaf, leaf, leaf]
+def children_strategy(depth, width, kinds=None, allow=("schema", "configtype", "schemalist", "virtual", "method", "featureflag"), min_width=1):
+    """A list of child nodes with unique keys: explicit counts of leaves, containers and misc members
+    (one_of over a flat option list lets Hypothesis collapse towards leaf-only schemas)."""
+    leaf_opts = [leaf_node(kinds)] * 4
     if kinds is None or "list" in kinds:
-        options.append(leaf_node(["list", "dict"]))
+        leaf_opts.append(leaf_node(["list", "dict"]))
+    leaf = st.one_of(*leaf_opts)
+    conts, misc = [], []
     if depth > 0:
-        sub = st.deferred(lambda: children_strategy(depth - 1, max(2, width - 1), kinds, allow))
+        sub = st.deferred(lambda: children_strategy(depth - 1, max(2, width - 1), kinds, allow, min_width))
         if "schema" in allow:
-            options.append(st.fixed_dictionaries({"kind": st.just("schema"), "children": sub, "dynamic": st.sampled_from([False, False, True])}))
+            conts += [st.fixed_dictionaries({"kind": st.just("schema"), "children": sub, "dynamic": st.sampled_from([False, False, True])})] * list(allow).count("schema")
         if "configtype" in allow:
-            options.append(st.fixed_dictionaries({"kind": st.just("configtype"), "children": sub}))
+            conts.append(st.fixed_dictionaries({"kind": st.just("configtype"), "children": sub}))
         if "schemalist" in allow:
-            options.append(st.fixed_dictionaries({"kind": st.just("schemalist"), "children": sub, "configtype": st.booleans(), "req": st.just(False)}))
+            conts.append(st.fixed_dictionaries({"kind": st.just("schemalist"), "children": sub, "configtype": st.booleans(), "req": st.just(False)}))
     if "virtual" in allow:
-        options.append(st.fixed_dictionaries({"kind": st.just("virtual"), "setter": st.booleans()}))
+        misc.append(st.fixed_dictionaries({"kind": st.just("virtual"), "setter": st.booleans()}))
     if "method" in allow:
-        options.append(st.just({"kind": "method"}))
+        misc.append(st.just({"kind": "method"}))
     if "featureflag" in allow:
-        options.append(st.fixed_dictionaries({"kind": st.just("featureflag"), "req": st.just(False), "opts": st.just({}), "validator": st.none(),
-                                              "default": st.sampled_from([{"mode": "none"}, {"mode": "const", "value": True}, {"mode": "const", "value": False}])}))
+        misc.append(st.fixed_dictionaries({"kind": st.just("featureflag"), "req": st.just(False), "opts": st.just({}), "validator": st.none(),
+                                           "default": st.sampled_from([{"mode": "none"}, {"mode": "const", "value": True}, {"mode": "const", "value": False}])}))
 
     def assign(t):
-        nodes, keys = t
-        out = []
-        for node, key in zip(nodes, keys):
-            node = dict(node, key=key)
-            out.append(node)
+        leaves_, conts_, misc_, keys, order = t
+        nodes = list(leaves_) + list(conts_) + list(misc_)
+        nodes = [nodes[i] for i in order if i < len(nodes)]
+        out = [dict(node, key=key) for node, key in zip(nodes, keys)]
         # virtual fields read a sibling leaf
-        leaves = [n["key"] for n in out if n["kind"] not in CONTAINER_KINDS + ("virtual", "method")]
+        leaf_keys = [n["key"] for n in out if n["kind"] not in CONTAINER_KINDS + ("virtual", "method")]
         final = []
         for n in out:
             if n["kind"] == "virtual":
-                if not leaves:
+                if not leaf_keys:
                     continue
-                n = dict(n, of=leaves[len(n["key"]) % len(leaves)])
+                n = dict(n, of=leaf_keys[len(n["key"]) % len(leaf_keys)])
             final.append(n)
         return final
 
-    return st.integers(1, width).flatmap(
-        lambda n: st.tuples(st.lists(st.one_of(*options), min_size=n, max_size=n),
-                            st.lists(st.sampled_from(KEY_POOL), min_size=n, max_size=n, unique=True))).map(assign)
+    def build(counts):
+        nl, nc, nm = counts
+        total = nl + nc + nm
+        return st.tuples(st.lists(leaf, min_size=nl, max_size=nl),
+                         st.lists(st.one_of(*conts), min_size=nc, max_size=nc) if conts else st.just([]),
+                         st.lists(st.one_of(*misc), min_size=nm, max_size=nm) if misc else st.just([]),
+                         st.lists(st.sampled_from(KEY_POOL), min_size=total, max_size=total, unique=True),
+                         st.permutations(list(range(total)))).map(assign)
+
+    n_leaf = st.integers(min(min_width, width), width)
+    n_cont = st.sampled_from([0, 1, 1, 2]) if conts else st.just(0)
+    n_misc = st.sampled_from([0, 0, 1, 1, 2]) if misc else st.just(0)
+    return st.tuples(n_leaf, n_cont, n_misc).flatmap(build)
 
 
-def schema_spec(tier, kinds=None, allow=None, depth=None, width=None):
+def schema_spec(tier, kinds=None, allow=None, depth=None, width=None, min_width=1):
     depth = depth if depth is not None else (2 if tier == "quick" else 3)
     width = width if width is not None else (4 if tier == "quick" else 6)
-    kw = {}
+    kw = {"min_width": min_width}
     if allow is not None:
         kw["allow"] = allow
     return st.fixed_dictionaries({"kind": st.just("schema"), "key": st.none(), "dynamic": st.sampled_from([False, False, False, True]),
